@@ -69,7 +69,7 @@ Definition c10_eq_case (cr : bool) (e : list Q) (cr' : bool) (e' : list Q)
     Bool.eqb impl_eq want;
     Bool.eqb impl_ne (negb want);
     match impl_cache with Some c => Bool.eqb c want | None => true end;
-    negb (impl_eq || match impl_cache with Some c => c | None => false end) ||
-      same_members_on (probes_of e ++ probes_of e') (cr, e) (cr', e');
+    if impl_eq || match impl_cache with Some c => c | None => false end
+    then same_members_on (probes_of e ++ probes_of e') (cr, e) (cr', e') else true;
     binning_ok (cr, e) && binning_ok (cr', e')
   ].
